@@ -350,6 +350,10 @@ func c16Run(c *mon.Ctx, unit int) {
 			st = model.Style{OneLine: true}
 		}
 		legal := false
+		if k == 2 {
+			s = &model.Schema{Root: gen.BigShape(r)}
+			st, legal = model.Style{}, true
+		}
 		if k%8 == 1 {
 			// the rule-free fragment (example values, optional / nullable marks, notes; empty
 			// containers annotated wherever they stand): every such schema is legal and has an AST
